@@ -240,7 +240,7 @@ pub fn run(tier: Tier) -> i32 {
     let started = std::time::Instant::now();
     let (h, k, a, secs) = match tier {
         Tier::Quick => (4, 2, 9, 45),
-        Tier::Thorough => (5, 3, 16, 1800),
+        Tier::Thorough => (5, 2, 16, 2400),
     };
     let set = program_set(k, a, 0);
     let ctl = RunCtl::new(secs);
